@@ -11,8 +11,8 @@ Every scenario runs under BOTH subsystems.
   returned trigger, virtual exit time and the tables afterwards must be equal;
 * property (verdict): an independent Python oracle computes the specified exit (first of check-now / first decisive
   occurrence / deadline anchored at the call) and demands tables after == tables before on EVERY ended exit
-  (return, exception, cancellation).  Open deviations of the tree are the known findings C15-F1, F4, F5;
-  C15-F2 (d8d17a4), F3 (74d9745) and F6 (28f0376) are fixed: the oracle demands the repaired behaviour and no
+  (return, exception, cancellation).  Open deviations of the tree are the known findings C15-F1 and F4;
+  C15-F2 (d8d17a4), F3 (74d9745), F5 (3b0ef9c) and F6 (28f0376) are fixed: the oracle demands the repaired behaviour and no
   signature excuses them any more (their witnesses stay in WITNESSES as regression cases).
 """
 import json
@@ -145,7 +145,9 @@ WITNESSES = [
     _w({"event": {"fn": None, "parse_ok": True}, "timeout": 0}, [[1.75, ["e", 3]]]),  # F3 (#23, fixed 74d9745)
     _w({"timeout": 0}, []),                                                          # F3 (fixed): used to raise RuntimeError
     _w({"event": {"fn": None, "parse_ok": True}, "mqtt": {"parse_ok": False}}, []),   # F4
-    _w({"event": {"fn": None, "parse_ok": True}, "time": ["abs", 0]}, [[2.25, ["e", 4]]]),   # F5
+    _w({"event": {"fn": None, "parse_ok": True}, "time": ["abs", 0]}, [[2.25, ["e", 4]]]),   # F5 (fixed 3b0ef9c)
+    _w({"time": ["abs", 0], "timeout": 2.5}, [[2.25, ["e", 4]]]),                      # F5 (fixed): expired time + timeout
+    _w({"time": ["abs", 0]}, [[2.25, ["e", 4]]]),                                      # expired time trigger alone: none
     _w({"event": {"fn": ["eq", 1], "parse_ok": True}, "time": ["rel", 3.2]}, [[3.25, ["e", 0]]]),   # F6 (fixed 28f0376)
 ]
 
@@ -433,10 +435,6 @@ def oracle(p, obs, got):
         return f"{sub}: the waiting function was never started"
     exp = expected_exit(p)
     if exp is not None and exp != got:
-        tm = cfg["time"]
-        dead = tm and tm[0] == "abs" and ms(tm[1]) <= ms(p["call"])
-        if not p["legacy"] and dead and got == ("ret", ms(p["call"]), "none"):
-            return f"{sub}: 'none' returned at once although other conditions or a timeout were given"
         return f"{sub}: exit differs from the first qualifying trigger: got {got[0]} {got[2]}, expected {exp[0]} {exp[2]}" \
                + (" at another instant" if got[0] == exp[0] and got[2] == exp[2] else "")
     if got[0] != "waiting" and obs["after"] != obs["before"]:
@@ -494,7 +492,6 @@ def verdict(c):
 SIGS = [
     (r"^legacy: left behind after the waiting task was cancelled", "legacy: subscriptions left behind after the waiting task was cancelled"),
     (r"^legacy: left behind after SyntaxError in the mqtt_trigger expression", "legacy: event subscription left behind after SyntaxError in the mqtt_trigger expression"),
-    (r"^new: 'none' returned at once", "new: 'none' returned at once although other conditions or a timeout were given"),
 ]
 
 
